@@ -158,23 +158,32 @@ def check(ctx, run):
         if not ok:
             run.fail(Finding("C01.R4", m.qualname, "; ".join(problems), "the hedger does not evaluate pl() on the hedge's prices, its own hedge, their costs and the derivative's payoff",
                              file=str(prog.modules[m.module].path), line=m.node.lineno))
-    # default hedge and the simulate-then-evaluate alias
-    gh = prog.lookup_method(W.HEDGER, "_get_hedge")
-    if gh is None:
-        raise AnalysisError("anchor vanished: Hedger._get_hedge")
+    # default hedge: every underlier of the derivative when no hedge list is given, the given list as it is otherwise - read off the prices
+    # compute_pl hands to pl() (whatever helper resolves the list)
+    cpl = prog.lookup_method(W.HEDGER, "compute_pl")
     uA, uB = Obj(W.PRIMARY, "uA"), Obj(W.PRIMARY, "uB")
-    d2 = W.option(name="deriv2")
-    d2.attrs["__underliers__"] = [uA, uB]
-    d2.attrs["underlier"] = uA
-    hh = W.hedger(prog, [W.feature("Moneyness", log=False)])
     given = [Obj(W.PRIMARY, "hA"), Obj(W.PRIMARY, "hB")]
     problems = []
-    for arg, want in ((None, [uA, uB]), (given, given)):
-        res = [r for r in interp.explore(gh, [d2, arg], {}, self_obj=hh) if not r["raises"]]
-        got = res[0]["value"] if len(res) == 1 else None
-        if not (isinstance(got, list) and len(got) == len(want) and all(a is b for a, b in zip(got, want))):
-            problems.append(f"_get_hedge({'None' if arg is None else 'hedge'}) returns {str(got)[:60]}")
-    run.oblige("C01.R4", "Hedger._get_hedge: all underliers by default, the given list otherwise", not problems, "; ".join(problems))
+    for arg, want in ((None, ["uA", "uB"]), (given, ["hA", "hB"])):
+        d2 = W.option(name="deriv2")
+        d2.attrs["__underliers__"] = [uA, uB]
+        d2.attrs["underlier"] = uA
+        hh = W.hedger(prog, [W.feature("Moneyness", log=False)])
+        try:
+            res = [r for r in interp.explore(cpl, [d2], {"hedge": arg}, self_obj=hh, max_paths=60) if not r["raises"]]
+        except Unsupported as ex:
+            raise AnalysisError(f"compute_pl(hedge={'None' if arg is None else 'list'}): {ex}")
+        if not res:
+            raise AnalysisError(f"compute_pl(hedge={'None' if arg is None else 'list'}): no analysable path")
+        for r0 in res:
+            calls = [e for e in r0["events"] if e["kind"] == "call" and e["callee"] == "pfhedge.nn.functional.pl"]
+            sp_ = (calls[0].get("bound") or {}).get("spot") if len(calls) == 1 else None
+            got = [str(x) for x in sp_.args[0]] if isinstance(sp_, Op) and sp_.op == "stack" and isinstance(sp_.args[0], (list, tuple)) else None
+            if got != [n_ + ".spot" for n_ in want]:
+                problems.append(f"hedge={'None' if arg is None else '[hA, hB]'}: pl() is evaluated on the prices of {got}, expected {want}")
+    problems = sorted(set(problems))
+    gh = cpl
+    run.oblige("C01.R4", "default hedge: all underliers of the derivative, a given hedge list as it is", not problems, "; ".join(problems))
     if problems:
         run.fail(Finding("C01.R4", gh.qualname, "; ".join(problems), "the default hedge is every underlier of the derivative, a given hedge list is used as is",
                          file=str(prog.modules[gh.module].path), line=gh.node.lineno))
